@@ -1472,7 +1472,8 @@ class Store:
         if here is None:
             here = self.path_for()
         deletions = []
-        path = (key,)
+        # ``key`` is the key of a child or a path (tuple) to a descendant
+        path = key if isinstance(key, tuple) else (key,)
         self._delete_path(path)
         deletions.append(tuple(here + path))
 
@@ -1754,7 +1755,11 @@ class Store:
                 else:
                     if path is None:
                         path = (key,)
-                    node = self.get_path(path)
+                    try:
+                        node = self.get_path(path)
+                    except Exception:  # pylint: disable=broad-except
+                        # the declared node no longer exists
+                        node = None
                     if node:
                         state[key] = node.schema_topology(subschema, {})
                     else:
